@@ -3,6 +3,7 @@ package world
 import (
 	"fmt"
 	"math/rand"
+	"strings"
 )
 
 type Opts struct {
@@ -74,13 +75,14 @@ func (g *Generated) paginate(c *Coll, items []*Edge, o Opts) {
 
 func Generate(r *rand.Rand, hosts []string, o Opts) *Generated {
 	g := &Generated{World: New(r, hosts)}
+	g.QueryIDs = r.Intn(3) == 0
 	nh := len(hosts)
 	// actors: a few per host
 	for i := 0; i < o.Actors; i++ {
 		a := g.NewActor(hosts[i%nh])
 		a.ActorType = []string{"Person", "Person", "Group", "Service"}[r.Intn(4)]
 		if r.Intn(2) == 0 {
-			a.Handle = fmt.Sprintf("user%d", i)
+			a.Handle = "u" + strings.ToLower(a.Label)
 		}
 		if r.Intn(2) == 0 {
 			a.Body = fmt.Sprintf("<p>bio of actor %d with a <a href=\"https://links.example/bio/%s\">link</a></p>", i, a.Label)
@@ -259,7 +261,19 @@ func Generate(r *rand.Rand, hosts []string, o Opts) *Generated {
 			act.Published = fmt.Sprintf("2024-06-%02dT%02d:30:00Z", 28-i%28, i%24)
 			e := g.mention(act, c.Host)
 			if g.anomalous(o) {
-				switch r.Intn(7) {
+				switch r.Intn(9) {
+				case 7: // a note embedded without an id that claims an author who has one (on another host or not): a forgery
+					anon := newPost(a.Host)
+					anon.Replies, anon.Parent = nil, nil
+					claimed := g.Actors[r.Intn(len(g.Actors))]
+					anon.Creators = []*Edge{URL(claimed)}
+					act.ActKind = "Create"
+					act.Object = &Edge{To: anon, Mode: "anon"}
+				case 8: // a post with an id whose author is embedded without one
+					p2 := newPost(a.Host)
+					ghost := g.NewActor(a.Host)
+					p2.Creators = []*Edge{{To: ghost, Mode: "anon"}}
+					act.Object = URL(p2)
 				case 0: // performed by somebody else
 					other := g.Actors[r.Intn(len(g.Actors))]
 					if other != a {
